@@ -1051,7 +1051,9 @@ func (m *Nitro) LoadFromDisk(dir string, concurr int, callb ItemCallback) (*Snap
 	if bs, err = ioutil.ReadFile(filepath.Join(datadir, "files.json")); err != nil {
 		return nil, err
 	}
-	json.Unmarshal(bs, &files)
+	if err = json.Unmarshal(bs, &files); err != nil {
+		return nil, err
+	}
 
 	if bs, err := ioutil.ReadFile(filepath.Join(datadir, "checksums.json")); err == nil {
 		json.Unmarshal(bs, &checksums)
@@ -1145,7 +1147,9 @@ func (m *Nitro) LoadFromDisk(dir string, concurr int, callb ItemCallback) (*Snap
 		deltadir := filepath.Join(dir, "delta")
 		var files []string
 		if bs, err := ioutil.ReadFile(filepath.Join(deltadir, "files.json")); err == nil {
-			json.Unmarshal(bs, &files)
+			if err = json.Unmarshal(bs, &files); err != nil {
+				return nil, err
+			}
 		}
 
 		readers := make([]FileReader, len(files))
